@@ -7,9 +7,9 @@
    for c_cnt j units; its token file is named after the job (CounterTokenDependency.name), so
    names are job numbers.  Everything is a total function nat -> _ (absent = default).
 
-   The `variant` switches select, for each of the four defects of the pinned commit, the
-   literal pre-fix behaviour (false) or the repaired one (true); VL is the pinned code, VF
-   the repaired code (fixes/C09-1..3, C11-2).                                                     *)
+   The `variant` switches select, for each defect found in the pinned commit, the literal
+   pre-fix behaviour (false) or the repaired one (true); VL is the pinned code, VF the
+   repaired code (fixes/C09-1..3, C11-2, C09-4, C08-1).                                    *)
 From Coq Require Import ZArith List Bool Arith.
 Import ListNotations.
 Open Scope Z_scope.
@@ -18,10 +18,21 @@ Record variant := mkV {
   v_parse : bool;   (* on_created/on_modified ignore a token file that cannot be parsed yet *)
   v_count : bool;   (* on_created/on_modified charge `available` for the file they cache     *)
   v_notify : bool;  (* release() notifies the dependents even when its file is already gone  *)
-  v_watch : bool    (* __init__ recounts once more after it has installed the directory watch *)
+  v_watch : bool;   (* __init__ recounts once more after it has installed the directory watch *)
+  v_empty : bool;   (* _update removes a token file that cannot be parsed: under token.lock such
+                       a file was opened by a scheduler that died before writing it          *)
+  v_fire : bool     (* TokenFile.watch tests "job gone" and deletes under the job lock (one
+                       step); pinned code: it deletes later, outside the lock, by name        *)
 }.
-Definition VF := mkV true true true true.
-Definition VL := mkV false false false false.
+Definition VF := mkV true true true true true true.
+Definition VL := mkV false false false false false false.
+(* the repaired code with one repair taken out (used by the refutation theorems) *)
+Definition V_no_parse  := mkV false true true true true true.
+Definition V_no_count  := mkV true false true true true true.
+Definition V_no_notify := mkV true true false true true true.
+Definition V_no_watch  := mkV true true true false true true.
+Definition V_no_empty  := mkV true true true true false true.
+Definition V_no_fire   := mkV true true true true true false.
 
 Record cfg := mkCfg { c_total : Z; c_n : nat; c_owner : nat -> nat; c_cnt : nat -> Z }.
 
@@ -138,8 +149,11 @@ Inductive label :=
 | Deliver (p i : nat)        (* the observer of p handles its i-th pending event *)
 | Fire (p n : nat)           (* a watcher thread of p for file n gets the job lock, sees the
                                 job process gone, deletes the file *)
-| StartRace (p n : nat).     (* Start p, and the watcher thread that its first _update starts
+| StartRace (p n : nat)      (* Start p, and the watcher thread that its first _update starts
                                 for file n finishes at once *)
+| FireDelete (p n : nat)     (* pinned code only: a watcher thread of p that has left the job lock
+                                (Fire) deletes whatever file is called n now *)
+| Resubmit (p j : nat).      (* the job identity j, finished, is submitted again by its scheduler *)
 Inductive result := ROk | RLockError | RRaised.
 
 (* token.lock is not held by process p (its handlers and its kill are outside an acquire) *)
@@ -147,6 +161,7 @@ Definition not_creating (C : cfg) (s : state) (p : nat) : bool :=
   match s_lock s with Some j => negb (Nat.eqb (c_owner C j) p) | None => true end.
 Definition lock_free (s : state) : bool := match s_lock s with None => true | Some _ => false end.
 Definition is_idle (ph : phase) : bool := match ph with Idle => true | _ => false end.
+Definition is_creating (ph : phase) : bool := match ph with Creating => true | _ => false end.
 Definition is_present (f : fcont) : bool := match f with Absent => false | _ => true end.
 Definition set_job (js : jst) (ph : phase) (lock pid : bool) : jst := mkJ ph (j_ok js) (j_orph js) lock pid.
 Definition set_ph (js : jst) (ph : phase) : jst := set_job js ph (j_lock js) (j_pid js).
@@ -159,7 +174,28 @@ Definition watcher_can_finish (js : jst) : bool :=
 Definition emit_except (p : nat) (ev : event) (procs : nat -> proc) : nat -> proc :=
   fun q => if Nat.eqb q p then procs q else emit ev procs q.
 
-Definition step1 (V : variant) (C : cfg) (s : state) (l : label) : option (state * result) :=
+(* pinned watcher thread past its test, about to delete file n: kept in p_wat as c_n + n *)
+Definition armed (C : cfg) (n : nat) : nat := (c_n C + n)%nat.
+
+Definition emit_list (evs : list event) (procs : nat -> proc) : nat -> proc :=
+  fold_left (fun ps ev => emit ev ps) evs procs.
+
+(* repaired _update: a *.token file that cannot be parsed and is not in cache is unlinked and
+   not counted.  (_update runs under token.lock, every creation too: the opener is dead.)   *)
+Definition stale_empty (s : state) (pr : proc) (k : nat) : bool :=
+  match s_disk s k, p_cache pr k with Empty, None => true | _, _ => false end.
+Definition sweep (V : variant) (C : cfg) (s : state) (pr : proc) : state :=
+  if v_empty V && lock_free s then
+    mkS (s_lock s)
+        (fun k => match s_disk s k with
+                  | Empty => match p_cache pr k with None => Absent | Some _ => Empty end
+                  | d => d
+                  end)   (* = if stale_empty s pr k then Absent else s_disk s k *)
+        (emit_list (map EDeleted (filter (stale_empty s pr) (seq 0 (c_n C)))) (s_procs s))
+        (s_jobs s)
+  else s.
+
+Definition core (V : variant) (C : cfg) (s : state) (l : label) : option (state * result) :=
   match l with
   | Start p =>
       let fresh := mkProc true 0 (fun _ => None) true [] [] in
@@ -170,19 +206,24 @@ Definition step1 (V : variant) (C : cfg) (s : state) (l : label) : option (state
           if Nat.eqb (c_owner C j) p && is_idle (j_ph js) && negb (j_orph js)
           then set_ok js (c_cnt C j <=? p_avail pr) else js in
         Some (mkS (s_lock s) (s_disk s) (upd (s_procs s) p pr) jobs', ROk)
+      else if negb (p_alive (s_procs s p)) && lock_free s
+      then Some (s, RRaised)   (* ValueError out of CounterToken.__init__: no token object *)
       else None
   | Kill p =>
-      if p_alive (s_procs s p) && not_creating C s p then
+      (* also between open() and write() of a token file (Creating): token.lock dies with the
+         process, the empty file stays, the job was never started                          *)
+      if p_alive (s_procs s p) then
         let jobs' := fun j => let js := s_jobs s j in
-          if Nat.eqb (c_owner C j) p && negb (j_orph js) then
+          if Nat.eqb (c_owner C j) p && (negb (j_orph js) || is_creating (j_ph js)) then
             match j_ph js with
+            | Creating => mkJ Ended (j_ok js) true false (j_pid js)
             | Holding => mkJ Ended (j_ok js) true false (j_pid js)  (* no job process; the job lock died with p *)
             | Running => mkJ Running (j_ok js) true (j_lock js) (j_pid js)
             | Ended => mkJ Ended (j_ok js) true (j_lock js) (j_pid js)
             | _ => js
             end
           else js in
-        Some (mkS (s_lock s) (s_disk s) (upd (s_procs s) p dead_proc) jobs', ROk)
+        Some (mkS (if not_creating C s p then s_lock s else None) (s_disk s) (upd (s_procs s) p dead_proc) jobs', ROk)
       else None
   | Acquire p j =>
       let pr0 := s_procs s p in
@@ -207,10 +248,15 @@ Definition step1 (V : variant) (C : cfg) (s : state) (l : label) : option (state
       match s_lock s with
       | Some j' =>
           if Nat.eqb j j' then
-            Some (mkS None (upd (s_disk s) j (Written (c_cnt C j)))
-                      (emit (EModified j) (s_procs s))
-                      (upd (s_jobs s) j (set_ph (s_jobs s j) Holding)),
-                  ROk)
+            if is_present (s_disk s j) then
+              Some (mkS None (upd (s_disk s) j (Written (c_cnt C j)))
+                        (emit (EModified j) (s_procs s))
+                        (upd (s_jobs s) j (set_ph (s_jobs s j) Holding)),
+                    ROk)
+            else
+              (* the pinned watcher thread of another process has unlinked the file that is being
+                 created: the write goes to the unlinked inode, nothing appears in the directory *)
+              Some (mkS None (s_disk s) (s_procs s) (upd (s_jobs s) j (set_ph (s_jobs s j) Holding)), ROk)
           else None
       | None => None
       end
@@ -319,11 +365,49 @@ Definition step1 (V : variant) (C : cfg) (s : state) (l : label) : option (state
         let pr' := mkProc (p_alive pr) (p_avail pr) (p_cache pr) (p_obs pr) (p_evq pr)
                           (remove_first n (p_wat pr)) in
         let procs1 := upd (s_procs s) p pr' in
+        if v_fire V then
+          if is_present (s_disk s n)
+          then Some (mkS (s_lock s) (upd (s_disk s) n Absent) (emit (EDeleted n) procs1) (s_jobs s), ROk)
+          else Some (mkS (s_lock s) (s_disk s) procs1 (s_jobs s), ROk)
+        else
+          (* pinned code: the thread has left the job lock and will call self.delete() *)
+          Some (mkS (s_lock s) (s_disk s)
+                    (upd (s_procs s) p
+                       (mkProc (p_alive pr) (p_avail pr) (p_cache pr) (p_obs pr) (p_evq pr)
+                               (remove_first n (p_wat pr) ++ [armed C n])))
+                    (s_jobs s), ROk)
+      else None
+  | StartRace _ _ => None
+  | FireDelete p n =>
+      let pr := s_procs s p in
+      if negb (v_fire V) && p_alive pr && mem (armed C n) (p_wat pr) then
+        let pr' := mkProc (p_alive pr) (p_avail pr) (p_cache pr) (p_obs pr) (p_evq pr)
+                          (remove_first (armed C n) (p_wat pr)) in
+        let procs1 := upd (s_procs s) p pr' in
         if is_present (s_disk s n)
         then Some (mkS (s_lock s) (upd (s_disk s) n Absent) (emit (EDeleted n) procs1) (s_jobs s), ROk)
         else Some (mkS (s_lock s) (s_disk s) procs1 (s_jobs s), ROk)
       else None
-  | StartRace _ _ => None
+  | Resubmit p j =>
+      let pr := s_procs s p in
+      let js := s_jobs s j in
+      match j_ph js with
+      | Done =>
+          if p_alive pr && Nat.eqb (c_owner C j) p && negb (j_orph js) then
+            Some (mkS (s_lock s) (s_disk s) (s_procs s)
+                      (upd (s_jobs s) j (mkJ Idle (c_cnt C j <=? p_avail pr) false false (j_pid js))), ROk)
+          else None
+      | _ => None
+      end
+  end.
+
+(* Start, acquire and release first run _update: in the repaired code it clears the stale
+   half-created files *)
+Definition step1 (V : variant) (C : cfg) (s : state) (l : label) : option (state * result) :=
+  match l with
+  | Start p => core V C (sweep V C s (mkProc true 0 (fun _ => None) true [] [])) l
+  | Acquire p _ | Release p _ => core V C (sweep V C s (s_procs s p)) l
+  | _ => core V C s l
   end.
 
 (* the watcher thread of p for file n finishes before p's directory watch exists: every
@@ -358,7 +442,8 @@ Definition step (V : variant) (C : cfg) (s : state) (l : label) : option (state 
   match l with
   | StartRace p n =>
       if v_watch V then
-        match ghost_delete C s n with
+        (* (the unwritten files are removed by the first _update, the watcher finishes after it) *)
+        match ghost_delete C (sweep V C s (mkProc true 0 (fun _ => None) true [] [])) n with
         | Some s1 => step1 V C s1 (Start p)
         | None => None
         end
